@@ -1012,8 +1012,12 @@ def _hdr_case(p, env, how, prev, port, chan):
           and obs[0] == port and obs[1] == chan)
     if not ok:
         h = sent[0][0] if len(sent) == 1 and isinstance(sent[0][0], int) else None
-        if h is None or sent[0][0] != sent[0][1] or sent[0][2] != want_data:
-            cls = 'not_one_consistent_packet'
+        if h is None:
+            cls = 'packet_count'
+        elif sent[0][2] != want_data:
+            cls = 'data_lost'
+        elif sent[0][0] != sent[0][1]:
+            cls = 'header_attribute_vs_get_header'
         else:
             cls = '+'.join(n for n, bad in (('port_lost', (h >> 4) != port or obs[0] != port),
                                             ('channel_lost', (h & 3) != chan or obs[1] != chan)) if bad) or 'header_range'
